@@ -166,6 +166,52 @@ def gen_rt(ctx, h1):
         add(rng.choice(["raw", "rawbuf", "sbuf"]), ["chain=lzma2", "dict=%d" % rng.choice([65536, 1 << 20]), "mode=2", "mf=%s" % rng.choice(["bt2", "bt2", "bt3"]),
                     "nice=%d" % rng.choice([8, 16, 32]), "depth=%d" % rng.choice([0, 4]), "pb=%d" % rng.randrange(5),
                     gen_spec(rng, rng.randrange(250000, 450000), rng.choice(["rnd", "rnd", "inc"]))] + slice_key(rng, 0.3))
+    # -- handle reuse: stream 1 finished through a small output window, then the SAME lzma_stream re-initialised ---------
+    # (per-stream encoder state such as "flush bytes still pending" must not survive the re-initialisation)
+    kinds = [("alone", []), ("raw", ["chain=lzma1"]), ("raw", ["chain=lzma1", "eopm=1"]), ("raw", ["chain=lzma1", "eopm=0"]),
+             ("raw", ["chain=lzma2"]), ("raw", ["chain=delta:1+lzma2"]), ("stream", ["chain=lzma2"]), ("easy", []), ("mt", ["threads=2", "block=8192", "chain=lzma2"])]
+    for (api1, k1) in kinds:
+        for osl in (0, 4096, 7, 3, 1):
+            # second stream: same kind (same or different lc/lp/pb, dict) or another kind on the same handle
+            api2, k2 = (api1, k1) if rng.random() < 0.7 else rng.choice(kinds)
+            size1 = rng.randrange(1, 3000) if osl <= 7 and osl else rng.randrange(1, 30000)
+            over = []
+            if rng.random() < 0.5:
+                lc, lp = rng.choice(LCLP)
+                over = ["2.lc=%d" % lc, "2.lp=%d" % lp, "2.pb=%d" % rng.randrange(5), "2.dict=%d" % rng.choice([4096, 8192, 65536])]
+            keys = ["preset=%d" % rng.randrange(3), "dict=%d" % rng.choice([4096, 65536]), "lc=%d" % rng.randrange(4), "lp=0", "pb=%d" % rng.randrange(5),
+                    "check=%d" % rng.choice(CHECKS), "oslice=%d" % osl, "oslice2=%d" % rng.choice([0, 0, 0, 4096, 5, 1]),
+                    gen_spec(rng, size1, rng.choice(["text", "far", "bin", "mix", "rnd", "per"])),
+                    gen_spec(rng, rng.randrange(0, 20000), rng.choice(["text", "far", "mix"])).replace("gen=", "gen2=")]
+            keys += [k for k in k1 if not k.startswith("chain=")] + [k for k in k1 if k.startswith("chain=")]
+            keys += ["2." + k for k in k2 if k not in k1] + over
+            L.append("reuse %s %s %s" % (api1, api2, " ".join(keys)))
+    for _ in range(20 if quick else 400):
+        (api1, k1), (api2, k2) = rng.choice(kinds), rng.choice(kinds)
+        ks, o = lz_opts(rng, 5000)
+        keys = ks + ["check=%d" % rng.choice(CHECKS), "oslice=%d" % rng.choice([0, 4096, 64, 7, 5, 3, 2, 1]), "oslice2=%d" % rng.choice([0, 0, 4096, 7, 1]),
+                     gen_spec(rng, rng.randrange(0, 6000)), gen_spec(rng, rng.randrange(0, 20000)).replace("gen=", "gen2=")]
+        keys += k1 + ["2." + k for k in k2 if k not in k1]
+        L.append("reuse %s %s %s" % (api1, api2, " ".join(keys)))
+    # -- the uncompressed fallback of the single-call / threaded Block encoders, by size class ----------------------------
+    # incompressible Blocks whose size is an exact multiple of LZMA2_CHUNK_MAX (and its neighbours); the Block Header's
+    # Compressed Size / the Index Unpadded Size must be the real sizes
+    for k in (1, 2, 3, 13, 16):
+        for d in (-1, 0, 1):
+            add("blockuncomp", ["check=%d" % rng.choice(CHECKS), gen_spec(rng, max(0, k * CHUNK + d), rng.choice(["rnd", "text", "zero"]))])
+    add("blockuncomp", [gen_spec(rng, 0, "zero")])
+    for k in ((13, 16) if quick else (13, 14, 16, 17, 32, 40)):
+        add("blockbuf", ["preset=0", "check=%d" % rng.choice(CHECKS), gen_spec(rng, k * CHUNK, "rnd")])
+        add(rng.choice(["easy", "sbuf"]) if quick else "easy", ["preset=0", "check=%d" % rng.choice(CHECKS), gen_spec(rng, k * CHUNK, "rnd")])
+        if not quick:
+            add("sbuf", ["chain=%s" % rng.choice(["lzma2", "delta:1+lzma2", "x86+lzma2"]), "preset=0", gen_spec(rng, k * CHUNK + rng.choice([-1, 0, 0, 1]), "rnd")])
+    for _ in range(4 if quick else 40):
+        add("blockbuf", [chain(rng, "lzma2", 3), "preset=%d" % rng.randrange(3), "check=%d" % rng.choice(CHECKS), gen_spec(rng, small_size(rng))])
+    if not quick:
+        # threaded encoder: an incompressible Block that does not fit the worker's buffer through the normal LZMA2 path makes
+        # the worker fall back to lzma_block_uncomp_encode (needs Blocks of about 17 MiB and more)
+        add("mt", ["threads=2", "block=%d" % (384 * CHUNK), "preset=0", "check=1", gen_spec(rng, 384 * CHUNK, "rnd")])
+        add("mt", ["threads=1", "block=0", "preset=6", "check=4", gen_spec(rng, 320 * CHUNK + rng.choice([0, 1]), "rnd")])
     # -- random part ------------------------------------------------------------------------------
     n_random = 560 if quick else 4200
     for _ in range(n_random):
@@ -407,7 +453,7 @@ def run_par(exe, lines, timeout=3000):
 
 def classify(line):
     t = line.split()
-    d = {"api": t[1]}
+    d = {"api": t[1] if t[0] != "reuse" else "reuse:%s>%s" % (t[1], t[2])}
     for k in t[2:]:
         if k.startswith("gen="):
             kind, _, size = k[4:].split(",")
